@@ -402,6 +402,17 @@ func c02Collect(c *Ctx, p *Prog, fn *ssa.Function, parsers []*parserInfo) {
 		if cc := callCommon(in); cc != nil && calleeName(cc) == "(*bytes.Buffer).ReadByte" {
 			f |= prog
 		}
+		// a helper that takes at least one byte off the buffer on every one of its paths
+		// (`res = t.deliverUnmatched(buf, res)`)
+		if cc := callCommon(in); cc != nil {
+			if h := cc.StaticCallee(); h != nil && h.Pkg == p.Tcell && len(h.Blocks) > 0 && !isParser[h] {
+				for i, a := range cc.Args {
+					if typeName(a.Type()) == "*bytes.Buffer" && i < len(h.Params) && alwaysConsumes(h, h.Params[i]) {
+						f |= prog
+					}
+				}
+			}
+		}
 		return f
 	}
 	edgeT := func(from *ssa.BasicBlock, idx int, f Facts) Facts {
@@ -872,4 +883,34 @@ func symbolicIndexBound(at ssa.Instruction, x, idx ssa.Value) (string, bool) {
 		}
 	}
 	return "", false
+}
+
+// alwaysConsumes: every path through h to a return passes a call that removes at least one byte from
+// the buffer buf (ReadByte, or Next with a positive constant).
+func alwaysConsumes(h *ssa.Function, buf *ssa.Parameter) bool {
+	stop := map[ssa.Instruction]bool{}
+	eachInstr(h, func(in ssa.Instruction) {
+		cc := callCommon(in)
+		if cc == nil || len(cc.Args) == 0 || cc.Args[0] != ssa.Value(buf) {
+			return
+		}
+		switch calleeName(cc) {
+		case "(*bytes.Buffer).ReadByte":
+			stop[in] = true
+		case "(*bytes.Buffer).Next":
+			if k, ok := constInt(cc.Args[1]); ok && k >= 1 {
+				stop[in] = true
+			}
+		}
+	})
+	if len(stop) == 0 {
+		return false
+	}
+	rets := returnsOf(h)
+	for _, r := range rets {
+		if existsPathFromEntryAvoiding(h, r, stop) {
+			return false
+		}
+	}
+	return len(rets) > 0
 }
